@@ -1,0 +1,179 @@
+//go:build verif
+
+package influxql
+
+// C05: the rune reader. The underlying io.RuneScanner r.r is a ghost stream
+// (rsin o k), length (rslen o), cursor rscur(o) (trusted model of ReadRune /
+// UnreadRune). r.pos is the position of the next rune to be read.
+//
+// Position rule of the statement, as a recurrence on r.pos: a line break (LF,
+// CRLF or a lone CR, all delivered as '\n') moves to (line+1, 0); any other
+// rune moves one column; the end of input is counted once.
+
+// the underlying scanner is never itself a *reader (NewScanner wraps a bufio.Reader)
+//@ typeinv reader : !istype(self.r, *reader) && self.r != nil
+
+//@ func (*reader).curr
+//@   props C05 C04
+//@   safety C05 C04
+//@   modifies nothing
+//@   requires r != nil && 0 <= r.i && r.i < 3 && 0 <= r.n && r.n <= 3
+//@   ensures ch == r.buf[(r.i-r.n+3)%3].ch && pos.Line == r.buf[(r.i-r.n+3)%3].pos.Line && pos.Char == r.buf[(r.i-r.n+3)%3].pos.Char
+
+//@ func (*reader).unread
+//@   props C05 C04
+//@   safety C05 C04
+//@   modifies r.*
+//@   requires r != nil && 0 <= r.i && r.i < 3 && 0 <= r.n && r.n < 3
+//@   ensures r.n == old(r.n) + 1 && r.i == old(r.i) && r.pos.Line == old(r.pos.Line) && r.pos.Char == old(r.pos.Char) && r.eof == old(r.eof)
+//@   ensures forall(k, 0, 3, r.buf[k].ch == old(r.buf[k].ch) && r.buf[k].pos.Line == old(r.buf[k].pos.Line) && r.buf[k].pos.Char == old(r.buf[k].pos.Char))
+//@   ensures rscur(r.r) == old(rscur(r.r))
+
+//@ func (*reader).read
+//@   props C05 C04
+//@   safety C05 C04
+//@   modifies r.*
+//@   let raw = r.r
+//@   let k0 = old(rscur(r.r))
+//@   requires r != nil && 0 <= r.i && r.i < 3 && 0 <= r.n && r.n <= 3
+//@   ensures 0 <= r.i && r.i < 3 && 0 <= r.n && r.n <= 3
+//   -- replay from the ring: nothing is read from the input, the position bookkeeping is untouched
+//@   ensures old(r.n) > 0 ==> r.n == old(r.n) - 1 && r.i == old(r.i) && rscur(raw) == k0 && r.eof == old(r.eof) && r.pos.Line == old(r.pos.Line) && r.pos.Char == old(r.pos.Char)
+//@   ensures old(r.n) > 0 ==> ch == old(r.buf[(r.i-(r.n-1)+3)%3].ch) && pos.Line == old(r.buf[(r.i-(r.n-1)+3)%3].pos.Line) && pos.Char == old(r.buf[(r.i-(r.n-1)+3)%3].pos.Char)
+//@   ensures old(r.n) > 0 ==> forall(j, 0, 3, r.buf[j].ch == old(r.buf[j].ch) && r.buf[j].pos.Line == old(r.buf[j].pos.Line) && r.buf[j].pos.Char == old(r.buf[j].pos.Char))
+//   -- fresh read: exactly one logical rune is taken from the input
+//@   ensures old(r.n) == 0 ==> r.n == 0 && r.i == (old(r.i)+1)%3
+//@   ensures old(r.n) == 0 ==> pos.Line == old(r.pos.Line) && pos.Char == old(r.pos.Char)
+//@   ensures old(r.n) == 0 ==> r.buf[r.i].ch == ch && r.buf[r.i].pos.Line == pos.Line && r.buf[r.i].pos.Char == pos.Char
+//@   ensures old(r.n) == 0 ==> forall(j, 0, 3, j != r.i ==> r.buf[j].ch == old(r.buf[j].ch) && r.buf[j].pos.Line == old(r.buf[j].pos.Line) && r.buf[j].pos.Char == old(r.buf[j].pos.Char))
+//   -- CR / CRLF folding and end of input
+//@   ensures old(r.n) == 0 && k0 >= 0 && k0 < rslen(raw) && rsin(raw, k0) != '\r' && rsin(raw, k0) != 0 ==> ch == rsin(raw, k0) && rscur(raw) == k0 + 1
+//@   ensures old(r.n) == 0 && k0 >= 0 && k0 < rslen(raw) && rsin(raw, k0) == '\r' ==> ch == '\n'
+//@   ensures old(r.n) == 0 && k0 >= 0 && k0 + 1 < rslen(raw) && rsin(raw, k0) == '\r' && rsin(raw, k0+1) == '\n' ==> rscur(raw) == k0 + 2
+//@   ensures old(r.n) == 0 && k0 >= 0 && k0 + 1 < rslen(raw) && rsin(raw, k0) == '\r' && rsin(raw, k0+1) != '\n' && rsin(raw, k0+1) != 0 ==> rscur(raw) == k0 + 1
+//@   ensures old(r.n) == 0 && k0 >= rslen(raw) ==> ch == eof
+//   -- position of the next rune
+//@   ensures old(r.n) == 0 && ch == '\n' ==> r.pos.Line == int(old(r.pos.Line)+1) && r.pos.Char == 0
+//@   ensures old(r.n) == 0 && ch != '\n' && !old(r.eof) ==> r.pos.Line == old(r.pos.Line) && r.pos.Char == int(old(r.pos.Char)+1)
+//@   ensures old(r.n) == 0 && ch != '\n' && old(r.eof) ==> r.pos.Line == old(r.pos.Line) && r.pos.Char == old(r.pos.Char)
+//@   ensures old(r.n) == 0 ==> r.eof == (old(r.eof) || ch == eof)
+
+// ---------------------------------------------------------------- Scanner
+// startLine/startChar: position of the next rune the reader will deliver
+// (from the ring if runes were pushed back, else r.pos).
+
+//@ func (*Scanner).scanWhitespace
+//@   props C05 C04
+//@   safety C05 C04
+//@   let rd = s.r
+//@   requires s != nil && s.r != nil && 0 <= s.r.i && s.r.i < 3 && 0 <= s.r.n && s.r.n <= 2
+//@   ensures 0 <= rd.i && rd.i < 3 && 0 <= rd.n && rd.n <= 3 && s.r == old(s.r)
+//@   ensures tok == WS && pos.Line == old(rd.buf[(rd.i-rd.n+3)%3].pos.Line) && pos.Char == old(rd.buf[(rd.i-rd.n+3)%3].pos.Char)
+//@   loop 1 invariant s.r == entry(s.r) && 0 <= s.r.i && s.r.i < 3 && 0 <= s.r.n && s.r.n <= 2
+
+//@ func (*Scanner).skipUntilNewline
+//@   props C05 C04
+//@   safety C05 C04
+//@   requires s != nil && s.r != nil && 0 <= s.r.i && s.r.i < 3 && 0 <= s.r.n && s.r.n <= 3
+//@   ensures 0 <= s.r.i && s.r.i < 3 && 0 <= s.r.n && s.r.n <= 2 && s.r == old(s.r)
+//@   loop 1 invariant s.r == entry(s.r) && 0 <= s.r.i && s.r.i < 3 && 0 <= s.r.n && s.r.n <= 3
+
+//@ func (*Scanner).skipUntilEndComment
+//@   props C05 C04
+//@   safety C05 C04
+//@   requires s != nil && s.r != nil && 0 <= s.r.i && s.r.i < 3 && 0 <= s.r.n && s.r.n <= 3
+//@   ensures 0 <= s.r.i && s.r.i < 3 && 0 <= s.r.n && s.r.n <= 2 && s.r == old(s.r)
+//@   loop 1 invariant s.r == entry(s.r) && 0 <= s.r.i && s.r.i < 3 && 0 <= s.r.n && s.r.n <= 3
+//@   loop 2 invariant s.r == entry(s.r) && 0 <= s.r.i && s.r.i < 3 && 0 <= s.r.n && s.r.n <= 3
+
+//@ func (*Scanner).scanDigits
+//@   props C05 C04
+//@   safety C05 C04
+//@   requires s != nil && s.r != nil && 0 <= s.r.i && s.r.i < 3 && 0 <= s.r.n && s.r.n <= 3
+//@   ensures 0 <= s.r.i && s.r.i < 3 && 1 <= s.r.n && s.r.n <= 3 && s.r == old(s.r)
+//@   loop 1 invariant s.r == entry(s.r) && 0 <= s.r.i && s.r.i < 3 && 0 <= s.r.n && s.r.n <= 3
+
+// *reader as an io.RuneScanner: ReadRune = read, UnreadRune = unread (used by
+// ScanString, ScanBareIdent, ScanDelimited through the interface).
+//@ func (*reader).ReadRune
+//@   props C05 C04
+//@   safety C05 C04
+//@   requires r != nil && 0 <= r.i && r.i < 3 && 0 <= r.n && r.n <= 3
+//@   ensures 0 <= r.i && r.i < 3 && 0 <= r.n && r.n <= 2
+
+//@ func (*reader).UnreadRune
+//@   props C05 C04
+//@   safety C05 C04
+//@   requires r != nil && 0 <= r.i && r.i < 3 && 0 <= r.n && r.n < 3
+//@   ensures 0 <= r.i && r.i < 3 && r.n == old(r.n) + 1 && r.i == old(r.i)
+
+//@ func ScanBareIdent
+//@   props C05 C04 C06
+//@   safety C05 C04
+//@   requires r != nil
+//@   requires istype(r, *reader) ==> r.(*reader) != nil && 0 <= r.(*reader).i && r.(*reader).i < 3 && 0 <= r.(*reader).n && r.(*reader).n <= 3
+//@   ensures istype(r, *reader) ==> 0 <= r.(*reader).i && r.(*reader).i < 3 && 0 <= r.(*reader).n && r.(*reader).n <= 3
+//@   loop 1 invariant istype(r, *reader) ==> 0 <= r.(*reader).i && r.(*reader).i < 3 && 0 <= r.(*reader).n && r.(*reader).n <= 3
+
+//@ func (*Scanner).scanString
+//@   props C05 C04
+//@   safety C05 C04
+//@   let rd = s.r
+//@   requires s != nil && s.r != nil && 0 <= s.r.i && s.r.i < 3 && 0 <= s.r.n && s.r.n <= 2
+//@   requires forallint(j, 0 <= j && j < rslen(s.r) ==> rsin(s.r, j) != 0)
+//@   ensures 0 <= rd.i && rd.i < 3 && 0 <= rd.n && rd.n <= 3 && s.r == old(s.r)
+//@   ensures tok == STRING || tok == BADSTRING || tok == BADESCAPE
+//   -- the position of a string token is the position of its opening quote (the rune delivered last)
+//@   claims tok == STRING || tok == BADSTRING ==> pos.Line == old(rd.buf[(rd.i-rd.n+3)%3].pos.Line) && pos.Char == old(rd.buf[(rd.i-rd.n+3)%3].pos.Char)
+
+//@ func ScanDelimited
+//@   props C05 C04
+//@   safety C05 C04
+//@   requires r != nil
+//@   requires istype(r, *reader) ==> r.(*reader) != nil && 0 <= r.(*reader).i && r.(*reader).i < 3 && 0 <= r.(*reader).n && r.(*reader).n <= 3
+//@   ensures istype(r, *reader) ==> 0 <= r.(*reader).i && r.(*reader).i < 3 && 0 <= r.(*reader).n && r.(*reader).n <= 3
+//@   loop 1 invariant istype(r, *reader) ==> 0 <= r.(*reader).i && r.(*reader).i < 3 && 0 <= r.(*reader).n && r.(*reader).n <= 3
+
+//@ func (*Scanner).ScanRegex
+//@   props C05 C04
+//@   safety C05 C04
+//@   let rd = s.r
+//@   requires s != nil && s.r != nil && 0 <= s.r.i && s.r.i < 3 && 0 <= s.r.n && s.r.n <= 3
+//@   ensures 0 <= rd.i && rd.i < 3 && 0 <= rd.n && rd.n <= 3 && s.r == old(s.r)
+//@   ensures tok == REGEX || tok == BADREGEX || tok == BADESCAPE
+
+//@ func (*Scanner).scanIdent
+//@   props C05 C04
+//@   safety C05 C04
+//@   let rd = s.r
+//@   requires s != nil && s.r != nil && 0 <= s.r.i && s.r.i < 3 && 0 <= s.r.n && s.r.n <= 3
+//@   requires forallint(j, 0 <= j && j < rslen(s.r) ==> rsin(s.r, j) != 0)
+//@   ensures 0 <= rd.i && rd.i < 3 && 0 <= rd.n && rd.n <= 3 && s.r == old(s.r)
+//   -- an identifier or keyword starts at the next rune to be delivered (pushed back by the caller, or unread input)
+//@   ensures old(rd.n) > 0 && tok != BADSTRING && tok != BADESCAPE ==> pos.Line == old(rd.buf[(rd.i-(rd.n-1)+3)%3].pos.Line) && pos.Char == old(rd.buf[(rd.i-(rd.n-1)+3)%3].pos.Char)
+//@   ensures old(rd.n) == 0 && tok != BADSTRING && tok != BADESCAPE ==> pos.Line == old(rd.pos.Line) && pos.Char == old(rd.pos.Char)
+//@   loop 1 invariant s.r == entry(s.r) && 0 <= s.r.i && s.r.i < 3 && 0 <= s.r.n && s.r.n <= 3
+
+//@ func (*Scanner).scanNumber
+//@   props C05 C04
+//@   safety C05 C04
+//@   let rd = s.r
+//@   requires s != nil && s.r != nil && 0 <= s.r.i && s.r.i < 3 && 0 <= s.r.n && s.r.n <= 2
+//@   ensures 0 <= rd.i && rd.i < 3 && 0 <= rd.n && rd.n <= 3 && s.r == old(s.r)
+//   -- a number starts at the rune delivered last (digit or '.')
+//@   ensures pos.Line == old(rd.buf[(rd.i-rd.n+3)%3].pos.Line) && pos.Char == old(rd.buf[(rd.i-rd.n+3)%3].pos.Char)
+//@   loop 1 invariant s.r == entry(s.r) && 0 <= s.r.i && s.r.i < 3 && 0 <= s.r.n && s.r.n <= 3
+//@   loop 2 invariant s.r == entry(s.r) && 0 <= s.r.i && s.r.i < 3 && 0 <= s.r.n && s.r.n <= 3
+
+// Scan: the token starts at the next rune the reader delivers.
+//@ func (*Scanner).Scan
+//@   props C05 C04
+//@   safety C05 C04
+//@   let rd = s.r
+//@   requires s != nil && s.r != nil && 0 <= s.r.i && s.r.i < 3 && 0 <= s.r.n && s.r.n <= 3
+//@   requires forallint(j, 0 <= j && j < rslen(s.r) ==> rsin(s.r, j) != 0)
+//@   ensures 0 <= rd.i && rd.i < 3 && 0 <= rd.n && rd.n <= 3 && s.r == old(s.r)
+//@   ensures old(rd.n) > 0 && tok != BADSTRING && tok != BADESCAPE && tok != STRING ==> pos.Line == old(rd.buf[(rd.i-(rd.n-1)+3)%3].pos.Line) && pos.Char == old(rd.buf[(rd.i-(rd.n-1)+3)%3].pos.Char)
+//@   ensures old(rd.n) == 0 && tok != BADSTRING && tok != BADESCAPE && tok != STRING ==> pos.Line == old(rd.pos.Line) && pos.Char == old(rd.pos.Char)
+//   -- string tokens too (property as stated; see finding on scanString)
+//@   claims old(rd.n) == 0 && (tok == STRING || tok == BADSTRING) ==> pos.Line == old(rd.pos.Line) && pos.Char == old(rd.pos.Char)
